@@ -103,8 +103,8 @@ func runC06(ctx *core.Ctx, idx int) *core.Result {
 	nf := 3 + r.Intn(6)
 	type fileInfo struct {
 		name, src, layout string
-		matched          bool
-		failing          bool // does not parse, or a change cannot be built for it
+		matched           bool
+		failing           bool // does not parse, or a change cannot be built for it
 	}
 	var files []fileInfo
 	brokenAt, failAt := -1, -1
